@@ -86,27 +86,28 @@ def preScan (c : Cfg) : List Rec → Option Rc
 
 /-! ### `update_records` -/
 
+/-- the `retain` predicate of "delete all RRsets from a name" (as repaired: SOA / NS are kept
+only at the origin) -/
+def anyKeep (c : Cfg) (rr : Rec) (k : Key) : Bool :=
+  k.1 ≠ rr.name.toLowercase ∨ ((k.2 = T_SOA ∨ k.2 = T_NS) ∧ k.1 = c.origin)
+
 /-- One iteration of the `for rr in records` loop: the zone afterwards and `some updated?`
 (`none` = `return Err(FormErr)`; the zone keeps what earlier iterations did). -/
 def applyRR (c : Cfg) (z : Zone) (rr : Rec) : Zone × Option Bool :=
-  let name := rr.name.toLowercase
   if rr.cls = c.zclass then
-    let p := upsert c.zclass z rr
-    (p.1, some p.2)
+    ((upsert c.zclass z rr).1, some (upsert c.zclass z rr).2)
   else if rr.cls = C_ANY then
-    if (rr.rtype = T_SOA ∨ rr.rtype = T_NS) ∧ name = c.origin then (z, some false)
+    if (rr.rtype = T_SOA ∨ rr.rtype = T_NS) ∧ rr.name.toLowercase = c.origin then (z, some false)
     else if rr.rtype = T_ANY then
-      let z' := z.filter fun e =>
-        e.1.1 ≠ name ∨ ((e.1.2 = T_SOA ∨ e.1.2 = T_NS) ∧ e.1.1 = c.origin)
-      (z', some (z'.length < z.length))
+      (z.filter fun e => anyKeep c rr e.1,
+       some ((z.filter fun e => anyKeep c rr e.1).length < z.length))
     else if rr.isEmptyData then
       (z.erase rr.key, some (z.get rr.key).isSome)
     else (z, none)
   else if rr.cls = C_NONE then
     match z.get rr.key with
     | some rs =>
-      let p := rsRemove rs rr
-      if p.2 then (z.set rr.key p.1, some true) else (z, some false)
+      if (rsRemove rs rr).2 then (z.set rr.key (rsRemove rs rr).1, some true) else (z, some false)
     | none => (z, some false)
   else (z, none)
 
